@@ -77,12 +77,17 @@ def unit_formatter(sess, ctx):
         if not ok:
             return None
         tpl, a, kw = calls[0]
+        # "{0}" and "{}" (and an f-string's "{...}") are the same template when the fields are the arguments in order
+        import re as _re
+        idx = _re.findall(r"\{(\d+)", tpl) if isinstance(tpl, str) else []
+        if isinstance(tpl, str) and idx == [str(i_) for i_ in range(len(idx))]:
+            tpl = _re.sub(r"\{\d+", "{", tpl)
         ms = r_trunc(eng.spec_mul(sec, 1000))
         if exp == "S":
             eng.prove("C15:formatter:%S-is-seconds-with-three-decimals", tpl == "{:.3f}" and a == (sec,) and not kw, props=P15)
         elif exp == "I":
             eng.prove("C15:formatter:%I-is-the-whole-millisecond-value",
-                      tpl == "{0}" and len(a) == 1 and is_int(a[0]) and not kw and z3.is_true(z3.simplify(I(a[0]) == ms)) if
+                      tpl == "{}" and len(a) == 1 and is_int(a[0]) and not kw and z3.is_true(z3.simplify(I(a[0]) == ms)) if
                       (len(a) == 1 and is_int(a[0])) else False, props=P15)
             if len(a) == 1 and is_int(a[0]):
                 eng.prove("C15:formatter:%I-value", I(a[0]) == ms, props=P15)
